@@ -651,6 +651,12 @@ func scannerTokens(p *Program) ([]scanTok, error) {
 						continue
 					}
 					for _, e := range cc.List {
+						if x.Tag == nil { // switch { case s.peek() == '=': }
+							if ch, eq, ok := charTest(e); ok && eq {
+								visit(cc.Body, seq+ch)
+							}
+							continue
+						}
 						if ch, ok := charOf(e); ok {
 							visit(cc.Body, seq+ch)
 						}
@@ -723,10 +729,12 @@ func scannerTokens(p *Program) ([]scanTok, error) {
 		}
 		return true
 	})
-	if len(out) < 30 {
+	// charsOf: the characters of a condition that is a disjunction of tests of the current character
+	var charsOf func(cond ast.Expr) []string
+	if true {
 		// the same dispatch written as an if / else-if chain on a copy of the current character:
 		//   if c := ch; c == '=' || c == '!' { ... } else if c == '+' { ... } else { ... }
-		charsOf := func(cond ast.Expr) []string {
+		charsOf = func(cond ast.Expr) []string {
 			var chars []string
 			okAll := true
 			var split func(e ast.Expr)
@@ -765,6 +773,8 @@ func scannerTokens(p *Program) ([]scanTok, error) {
 			}
 			return chars
 		}
+	}
+	if len(out) < 30 {
 		best := 0
 		ast.Inspect(scan.Body, func(n ast.Node) bool {
 			is, ok := n.(*ast.IfStmt)
@@ -794,6 +804,53 @@ func scannerTokens(p *Program) ([]scanTok, error) {
 					}
 					next, _ := cur.Else.(*ast.IfStmt)
 					cur = next
+				}
+				return false
+			}
+			return true
+		})
+	}
+	if len(out) < 30 {
+		// the same dispatch written as a tag-less switch: switch { case ch == '=' || ch == '!': ... case ch == '+': ... }
+		best := 0
+		ast.Inspect(scan.Body, func(n ast.Node) bool {
+			sw, ok := n.(*ast.SwitchStmt)
+			if !ok || sw.Tag != nil {
+				return true
+			}
+			k := 0
+			for _, cs := range sw.Body.List {
+				cc := cs.(*ast.CaseClause)
+				all := len(cc.List) > 0
+				for _, e := range cc.List {
+					if charsOf(e) == nil {
+						all = false
+					}
+				}
+				if all {
+					k++
+				}
+			}
+			if k > best && k >= 10 {
+				best = k
+				out = nil
+				for _, cs := range sw.Body.List {
+					cc := cs.(*ast.CaseClause)
+					var chars []string
+					all := len(cc.List) > 0
+					for _, e := range cc.List {
+						c := charsOf(e)
+						if c == nil {
+							all = false
+						}
+						chars = append(chars, c...)
+					}
+					if !all {
+						continue
+					}
+					for _, ch := range chars {
+						visit(cc.Body, ch)
+					}
 				}
 				return false
 			}
